@@ -3,7 +3,7 @@ import ast
 from ..core import AnalysisError
 from ..terms import RF, lift, Unsupported, show
 from ..guards import Ctx
-from ..summ import Summarizer, Sym, fr
+from ..summ import Summarizer, Sym, fr, to_num, show_value
 
 EXPLANATION = (
     "Both functions of utils.py are straight-line; the summariser gives their exact rational normal forms over the "
@@ -15,7 +15,42 @@ EXPLANATION = (
 
 
 class Hooks:
-    pass
+    def __init__(self, model):
+        self.model = model
+
+    def inline(self, fname):
+        f = self.model.funcs.get(("utils", fname))
+        if f is not None:
+            return f, False
+        return None
+
+    def name(self, id):
+        if ("utils", id) in self.model.consts:
+            try:
+                v = self.model.const_value("utils", id)
+            except AnalysisError:
+                return None
+            if isinstance(v, (int, float)) and not isinstance(v, bool):
+                return lift(v)
+        return None
+
+
+def purity(model, rep, fn, rel):
+    """the result may depend on the arguments only: no global statement, no store through a subscript / attribute"""
+    ok = True
+    for n in ast.walk(fn):
+        bad = None
+        if isinstance(n, (ast.Global, ast.Nonlocal)):
+            bad = "declares %s" % ", ".join(n.names)
+        elif isinstance(n, (ast.Subscript, ast.Attribute)) and isinstance(n.ctx, (ast.Store, ast.Del)):
+            bad = "stores into %s" % ast.unparse(n)
+        elif isinstance(n, ast.Call) and isinstance(n.func, ast.Attribute) and n.func.attr in ("append", "update", "setdefault", "pop", "clear", "add"):
+            bad = "mutates %s" % ast.unparse(n.func.value)
+        if bad:
+            ok = False
+            rep.violation("purity", "utils." + fn.name, "%s:%d" % (rel, n.lineno), "%s %s: the result of a later call can depend on an earlier one" % (fn.name, bad), "impure: " + bad)
+    rep.instance("purity", "utils.%s is a function of its arguments only" % fn.name, "%s:%d" % (rel, fn.lineno), ok)
+    return ok
 
 
 def summarize(model, name):
@@ -26,15 +61,24 @@ def summarize(model, name):
         raise AnalysisError("utils.%s takes positional arguments" % name)
     for x in a.kwonlyargs:
         args[x.arg] = fr(x.arg)
-    sm = Summarizer(Hooks(), Ctx())
+    sm = Summarizer(Hooks(model), Ctx())
     try:
         leaves = sm.summarize(fn, args)
     except Unsupported as e:
         raise AnalysisError("utils.%s: %s" % (name, e))
-    if len(leaves) != 1 or leaves[0].kind != "return" or not isinstance(leaves[0].value, RF):
-        raise AnalysisError("utils.%s is not a single closed-form return" % name)
     defaults = {x.arg: d for x, d in zip(a.kwonlyargs, a.kw_defaults) if d is not None}
-    return fn, leaves[0].value, defaults
+    vals = []
+    for lf in leaves:
+        if lf.kind != "return":
+            vals.append(None)
+        elif isinstance(lf.value, RF):
+            vals.append(lf.value)
+        else:
+            try:
+                vals.append(to_num(lf.value))
+            except Unsupported:
+                vals.append(None)
+    return fn, vals, defaults, leaves
 
 
 def sub(t, **kw):
@@ -45,8 +89,21 @@ def run(model, rep, tier):
     rep.explanation = EXPLANATION
     rep.level = "proof"
     rel = model.rel("utils")
-    ftr, tr, dtr = summarize(model, "trace_res")
-    fpl, pl, dpl = summarize(model, "plane_res")
+    ftr, trs, dtr, ltr = summarize(model, "trace_res")
+    fpl, pls, dpl, lpl = summarize(model, "plane_res")
+    pure = purity(model, rep, ftr, rel) & purity(model, rep, fpl, rel)
+    for fname, fn, vals, leaves in (("trace_res", ftr, trs, ltr), ("plane_res", fpl, pls, lpl)):
+        if any(v is None for v in vals):
+            raise AnalysisError("utils.%s has a path that does not return a number" % fname)
+        if len(vals) > 1:
+            allowed = set(("fr", x.arg) for x in fn.args.kwonlyargs)
+            stray = [v for v in vals if not (v.atoms() <= allowed | {("fr", "k"), ("fr", "h")})]
+            if not pure or stray:
+                rep.violation("formula", "utils." + fname, "%s:%d" % (rel, fn.lineno),
+                              "%s has %d paths and returns %s on one of them: not a closed form of its arguments" % (fname, len(vals), show(stray[0] if stray else vals[-1])), "not closed form")
+            else:
+                raise AnalysisError("utils.%s is not a single closed-form return" % fname)
+    tr, pl = trs[0], pls[0]
     need_tr = {"w1_mm", "w2_mm", "l_mm", "t_mm", "rho", "temp", "tcr"}
     need_pl = {"w", "l", "t_mm", "rho", "temp", "tcr"}
     if {x.arg for x in ftr.args.kwonlyargs} != need_tr or {x.arg for x in fpl.args.kwonlyargs} != need_pl:
